@@ -4,7 +4,8 @@ R05a freed-state typestate (E2); R05b status-dependent code is effect-free; R05c
 """
 import ast
 
-from ..astx import self_attr, dotted, walk_no_nested, parent, call_name, assigned_names
+from ..astx import self_attr, dotted, walk_no_nested, parent, call_name, assigned_names, flatten_conditions, \
+    dominating_conditions
 from ..core import norm
 from ..typestate import ClassAnalysis, NN
 
@@ -284,6 +285,16 @@ def _paths_without_retain(stmts, v, field, retained=False):
             rest = stmts[i + 1:]
             for branch in (s.body, s.orelse):
                 bad += _paths_without_retain(branch + rest, v, field, retained)
+            return bad
+        if isinstance(s, (ast.Continue, ast.Break)):
+            # the value is dropped for good unless it was retained; dropping is sound only for a candidate that is STRICTLY
+            # worse than something held (upper < lower); `dominates()` / `<=` also drops a candidate that ties with the optimum
+            if not retained:
+                conds = [ast.unparse(t).replace(" ", "") for t, pol in flatten_conditions(dominating_conditions(s)) if pol]
+                strict = conds and all(("upper_bound<" in c_ and "lower_bound" in c_ and "<=" not in c_ and ".dominates(" not in c_) or v not in c_
+                                       for c_ in conds) and any(v in c_ for c_ in conds)
+                if not strict:
+                    bad.append(s)
             return bad
         if isinstance(s, (ast.Return, ast.Raise)):
             if not retained and not (isinstance(s, ast.Return) and s.value is not None and _retains(s, v, field)):
